@@ -16,16 +16,13 @@ import re, sys
 PINNED = [
  "AbstractPack.Write", "AbstractPack.Read",
  "WritePack", "ReadPack", "ToBytesPack", "ToPack",
- "EventPack.Write", "EventPack.Read",
- "TagCountPack.Write", "TagLogPack.Write", "LogSinkPack.Write", "LogSinkPack.ResetTagHash",
- "ParamPack.Write", "ParamPack.Read",
- "ExtensionPack.Write", "ExtensionPack.Read", "toHeaderBytes", "toHeaderObject",
+  "LogSinkPack.ResetTagHash",
+  "toHeaderBytes", "toHeaderObject",
  "CompositePack.Write", "CompositePack.Read",
  "HitMapPack1.Write", "HitMapPack1.Read",
  "ProfilePack.Write", "ProfilePack.Read",
- "SMBasePack.Write", "SMBasePack.Read",
  "StatGeneralPack.Write", "StatGeneralPack.Read", "StatGeneralPack.writeTable", "StatGeneralPack.readTable", "StatGeneralPack.unpack",
- "CounterPack1.Write", "CounterPack1.Read", "CounterPack1.writeShortArray", "CounterPack1.readShortArray",
+ "CounterPack1.writeShortArray", "CounterPack1.readShortArray",
  "CounterPack1.ReadDropMap", "CounterPack1.readTxcallerUnknown", "CounterPack1.readTxcallerGroupMeter",
  "CounterPack1.readTxcallerPOidMeter", "CounterPack1.readTxcallerOkindMeterDeprecated", "CounterPack1.readHttpcMeter",
  "CounterPack1.readSqlMeter", "CounterPack1.readTxcallerOidMeter", "CounterPack1.writeTxcallerOther",
@@ -41,6 +38,10 @@ PINNED = [
  "StatServicePack.SetRecords", "StatServicePack.WriteRec", "ReadRec",
  "SMDownCheckPack.SetRecords", "SMDownCheckPack.GetRecords",
 ]
+
+# functions transcribed up to a few statements: only those statements ("gaps") are pinned
+GAPS = [("CounterPack1", "w"), ("CounterPack1", "r"), ("TagCountPack", "w"), ("TagLogPack", "w"), ("LogSinkPack", "w"),
+        ("ParamPack", "w"), ("ParamPack", "r"), ("ExtensionPack", "w"), ("ExtensionPack", "r"), ("EventPack", "w"), ("EventPack", "r")]
 
 src = open(sys.argv[1]).read()
 sec = src[src.index("namespace skel"):]
@@ -70,6 +71,12 @@ for n in PINNED:
     items = entries[ident(n)]
     out.append("def %s : List String :=\n  %s\n" % (ident(n), items))
     thm.append('theorem skel_%s : skel.%s = Packs.Skeletons.%s := rfl' % (ident(n), ident(n), ident(n)))
+for (t, side) in GAPS:
+    m = re.search(r'^def %s\.%sGaps : List String :=\n  (\[.*\])$' % (t, side), src, re.M)
+    if not m:
+        missing.append("%s.%sGaps" % (t, side)); continue
+    out.append("def %s_%sGaps : List String :=\n  %s\n" % (t, side, m.group(1)))
+    thm.append('theorem gaps_%s_%s : %s.%sGaps = Packs.Skeletons.%s_%sGaps := rfl' % (t, side, t, side, t, side))
 out.append("end Packs.Skeletons")
 thm.append("")
 thm.append("end C03GenSkel")
